@@ -136,11 +136,21 @@ Definition first_nonempty (t : tpl) : bool :=
   | _ => false
   end.
 
+(** Clause used by Path/PathProofs.v (C05, C06): every template of every path configuration is named
+    by a non-empty type whose basetype has an entry in key_types (so that [path_to_dict] can order the
+    fields it reads; without it the lookup is a TypeError in the implementation). *)
+Definition path_tpls_ok (Ld : Loaded) : bool :=
+  forallb (fun lp =>
+    forallb (fun t => negb (sempty (tp_name t))
+                      && dmem (c_key_types (l_conf Ld)) (hd "" (split_s (c_sep (l_conf Ld)) (tp_name t))))
+            (r_tpls (lp_resolver lp))) (l_paths Ld).
+
 Definition wf_loaded_ext (Ld : Loaded) : bool :=
   forallb (fun t => type_name_ok (tp_name t) && first_nonempty t) (r_tpls (l_sid Ld))
   && same_keys_same_seq (r_tpls (l_sid Ld))
   && prefix_closed (r_tpls (l_sid Ld))
-  && forallb (fun sym => negb (sempty sym)) (c_search_symbols (l_conf Ld)).
+  && forallb (fun sym => negb (sempty sym)) (c_search_symbols (l_conf Ld))
+  && path_tpls_ok Ld.
 
 Definition wf_loadedb (Ld : Loaded) : bool := wf_loaded_base Ld && wf_loaded_ext Ld.
 
